@@ -2,3 +2,5 @@ pub mod c01;
 pub mod c02;
 pub mod c05;
 pub mod c06;
+pub mod c09;
+pub mod c10;
